@@ -18,6 +18,4 @@ def run(ctx):
     bins = ctx.build_many(specs)
     a = ['--thorough'] if ctx.thorough else []
     for k in ('c13_mbox', 'c13_noop', 'c13_dylib'):
-        if k == 'c13_dylib' and not ctx.thorough:
-            continue
         ctx.run(bins[k], a, parts=4)
